@@ -337,3 +337,13 @@ patch("s-c02h-arg-read-after-push", "seeded/C02-H/patch.diff", "C02.R3")
 patch("s-c07h-stale-wrap-link", "seeded/C07-H/patch.diff", "C07.R8")
 patch("s-c08g-local-stream-not-cleared", "seeded/C08-G/patch.diff", "C08.R6")
 patch("s-c09g-reset-reinits-waitlist", "seeded/C09-G/patch.diff", "C09.X6")
+patch("s-c10h-stale-stream-copy", "seeded/C10-H/patch.diff", "C10.R5")
+patch("s-c11h-handle-after-switch", "seeded/C11-H/patch.diff", "C11.R11")
+patch("s-c12h-unset-request-bang", "seeded/C12-H/patch.diff", "C12.R10")
+patch("s-c13h-callback-needs-migratable", "seeded/C13-H/patch.diff", "C13.R9")
+patch("s-c14h-pop-many-bound", "seeded/C14-H/patch.diff", "C14.R7")
+patch("s-c15h-bucket-shift-short", "seeded/C15-H/patch.diff", "C15.R7")
+patch("s-c16h-revive-clears-keytable", "seeded/C16-H/patch.diff", "C16.R7")
+patch("s-c18h-detach-without-release", "seeded/C18-H/patch.diff", "C18.R9")
+patch("s-c20g-delete-before-validate", "seeded/C20-G/patch.diff", "C20.R9")
+patch("s-c20h-pow2-32bit-bound", "seeded/C20-H/patch.diff", "C20.R8")
